@@ -7,6 +7,17 @@ CHECKS = {
              text="Generated-input search: whole-tree equality between a model of the file and gtwrap's parse tree, on 1k (quick) / 24k (thorough) generated files covering every construct of the dialect, plus the 11 fixtures read by an independent reader. Finds dropped/invented/reordered/re-scoped declarations and lost qualifiers; cannot show absence.",
              note="Trusted: vlib.render (spelling of the dialect), vlib.project (reads gtwrap node attributes), the generator's soundness rules in DESIGN.md 2.1.", ref="3/C01"),
 }
+CHECKS.update({
+ 'C02': dict(tech="Hypothesis model-based generation of templated declarations + reference-model oracle (capture-free structural substitution on the model vs to_cpp() of every instantiated type)",
+             text="Generated-input search against an independent reference substitution: every argument/return/property/operator/base/dunder type of every instantiation is compared with the reference spelling; parameters are placed at depth 1..4, scoped, qualified, next to look-alike identifiers, with `This`. Cannot show absence.",
+             note="Trusted: vlib.refinst (reference semantics stated in its docstring), vlib.instproj (reads to_cpp()). Shapes excluded while finding F-21 is open are counted in DESIGN.md.", ref="3/C02"),
+ 'C08': dict(tech="Hypothesis model-based generation + reference enumeration oracle (ordered Cartesian products, names, Name<args>, typedefs, pass-through) compared with the instantiated tree",
+             text="Generated-input search against a reference enumeration of instantiations: per scope the ordered sequence (kind, name, C++ spelling, namespace path) must equal the reference, likewise member products inside each class instantiation. Cannot show absence.",
+             note="Trusted: vlib.refinst.expected, vlib.instcmp. Position of typedef-derived items relative to the others is not checked.", ref="3/C08"),
+ 'C13': dict(tech="Hypothesis metamorphic testing: sublist/permutation of instantiation lists, alpha-renaming of parameters, repeated fresh parses; equality of per-instantiation projections, pybind blocks, pybind TU and MATLAB toolbox",
+             text="Metamorphic generated-input search: three transformations that must not change an instantiation; both sides come from gtwrap, so no reference spelling is needed. Cannot show absence.",
+             note="Trusted: the model transformations in checks/c13.py and vlib.model.rename_param (scoping of member-level parameters).", ref="3/C13"),
+})
 PENDING = {}
 
 def main():
